@@ -431,7 +431,8 @@ impl<'a> Gen<'a> {
         let mut lies = Vec::new();
         let mut note = String::from("point:");
         for _ in 0..n {
-            let pos = self.rng.index(path.len());
+            // the start request itself is the most exposed one: a fifth of the lies go there
+            let pos = if self.rng.chance(0.2) { 0 } else { self.rng.index(path.len()) };
             let x = path[pos];
             let l = match self.rng.weighted(&[10, 10, 12, 8, 25, 25, 6, 6]) {
                 0 => lie(x, Answer::NotFound, "not_found"),
